@@ -128,7 +128,7 @@ def run_cpp(cpp_text: str, calls: list) -> list:
 	out = []
 	for k in range(len(calls)):
 		try:
-			r = subprocess.run([exe, str(k)], capture_output=True, text=True, timeout=60)
+			r = subprocess.run([exe, str(k)], capture_output=True, text=True, timeout=10)
 		except subprocess.TimeoutExpired:
 			out.append('TIMEOUT')
 			continue
